@@ -61,6 +61,10 @@ Lemma notify_ph C p a jobs j : j_ph (notify C p a jobs j) = j_ph (jobs j).
 Proof. unfold notify. destruct (0 <? a); [|reflexivity]. destruct (_ && _); reflexivity. Qed.
 Lemma notify_orph C p a jobs j : j_orph (notify C p a jobs j) = j_orph (jobs j).
 Proof. unfold notify. destruct (0 <? a); [|reflexivity]. destruct (_ && _); reflexivity. Qed.
+Lemma notify_lock C p a jobs j : j_lock (notify C p a jobs j) = j_lock (jobs j).
+Proof. unfold notify. destruct (0 <? a); [|reflexivity]. destruct (_ && _); reflexivity. Qed.
+Lemma notify_pid C p a jobs j : j_pid (notify C p a jobs j) = j_pid (jobs j).
+Proof. unfold notify. destruct (0 <? a); [|reflexivity]. destruct (_ && _); reflexivity. Qed.
 
 Lemma mem_In n l : mem n l = true <-> In n l.
 Proof.
@@ -226,9 +230,61 @@ Proof. intros H q k c. rewrite emit_cache. apply H. Qed.
 Lemma lock_free_None s : lock_free s = true -> s_lock s = None.
 Proof. unfold lock_free. destruct (s_lock s); congruence. Qed.
 
-Lemma invA_step V C s l s' r : InvA C s -> step V C s l = Some (s', r) -> InvA C s'.
+(* job lock and pid file follow the phase (needs nothing else) *)
+Record InvL (s : state) : Prop := {
+  l_locked : forall j, j_ph (s_jobs s j) = Creating \/ j_ph (s_jobs s j) = Holding -> j_lock (s_jobs s j) = true;
+  l_unlocked : forall j, j_lock (s_jobs s j) = true -> j_ph (s_jobs s j) = Creating \/ j_ph (s_jobs s j) = Holding;
+  l_pid : forall j, j_ph (s_jobs s j) = Running -> j_pid (s_jobs s j) = true
+}.
+
+Lemma invL_init : InvL init.
+Proof. constructor; simpl; intros; try discriminate. destruct H; discriminate. Qed.
+
+Lemma invL_jobs s s' :
+  InvL s ->
+  (forall j, s_jobs s' j = s_jobs s j \/
+     (j_ph (s_jobs s' j) = j_ph (s_jobs s j) /\ j_lock (s_jobs s' j) = j_lock (s_jobs s j) /\ j_pid (s_jobs s' j) = j_pid (s_jobs s j)) \/
+     (j_ph (s_jobs s' j) = Creating /\ j_lock (s_jobs s' j) = true) \/
+     (j_ph (s_jobs s j) = Creating /\ j_ph (s_jobs s' j) = Holding /\ j_lock (s_jobs s' j) = j_lock (s_jobs s j)) \/
+     (j_ph (s_jobs s' j) = Running /\ j_lock (s_jobs s' j) = false /\ j_pid (s_jobs s' j) = true) \/
+     ((j_ph (s_jobs s' j) = Ended \/ j_ph (s_jobs s' j) = Idle \/ j_ph (s_jobs s' j) = Done) /\ j_lock (s_jobs s' j) = false)) ->
+  InvL s'.
 Proof.
-  intros I H. destruct l; simpl in H.
+  intros L H. constructor; intros j Hj; destruct (H j) as [E|[[E1 [E2 E3]]|[[E1 E2]|[[E0 [E1 E2]]|[[E1 [E2 E3]]|[E1 E2]]]]]].
+  - rewrite E in *. apply (l_locked _ L); auto.
+  - rewrite E1 in Hj. rewrite E2. apply (l_locked _ L); auto.
+  - auto.
+  - rewrite E2. apply (l_locked _ L); auto.
+  - rewrite E1 in Hj. destruct Hj; discriminate.
+  - destruct E1 as [E1|[E1|E1]]; rewrite E1 in Hj; destruct Hj; discriminate.
+  - rewrite E in *. apply (l_unlocked _ L); auto.
+  - rewrite E1. rewrite E2 in Hj. apply (l_unlocked _ L); auto.
+  - auto.
+  - auto.
+  - congruence.
+  - congruence.
+  - rewrite E in *. apply (l_pid _ L); auto.
+  - rewrite E3. rewrite E1 in Hj. apply (l_pid _ L); auto.
+  - congruence.
+  - congruence.
+  - auto.
+  - destruct E1 as [E1|[E1|E1]]; congruence.
+Qed.
+
+Lemma can_finish_phase s n :
+  InvL s -> watcher_can_finish (s_jobs s n) = true ->
+  j_ph (s_jobs s n) = Idle \/ j_ph (s_jobs s n) = Done \/ j_ph (s_jobs s n) = Ended.
+Proof.
+  intros L H. unfold watcher_can_finish in H. apply andb_true_iff in H. destruct H as [H1 H2].
+  destruct (j_ph (s_jobs s n)) eqn:P; auto.
+  - rewrite (l_locked _ L n) in H1 by auto. discriminate.
+  - rewrite (l_locked _ L n) in H1 by auto. discriminate.
+  - rewrite (l_pid _ L n P) in H2. simpl in H2. discriminate.
+Qed.
+
+Lemma invA_step1 V C s l s' r : InvL s -> InvA C s -> step1 V C s l = Some (s', r) -> InvA C s'.
+Proof.
+  intros IL I H. destruct l; simpl in H.
   - (* Start *)
     open_guard H. split_and G. inversion H; subst; clear H. apply lock_free_None in G1.
     apply (invA_same C s); auto; simpl.
@@ -236,12 +292,9 @@ Proof.
     + apply good_upd; [apply good_all; auto|]. apply recount_good; auto. intros k c Hc; discriminate.
   - (* Kill *)
     open_guard H. split_and G. inversion H; subst; clear H.
-    assert (PH : forall j, let js := s_jobs s j in
-       let js' := if Nat.eqb (c_owner C j) p && negb (j_orph js) then
-            match j_ph js with Holding => mkJ Ended (j_ok js) true | Running => mkJ Running (j_ok js) true
-            | Ended => mkJ Ended (j_ok js) true | _ => js end else js in
-       j_ph js' = j_ph js \/ (j_ph js = Holding /\ j_ph js' = Ended)).
-    { intros j. destruct (s_jobs s j) as [ph ok orph]. simpl. destruct (_ && _); auto. destruct ph; simpl; auto. }
+    match goal with |- InvA C (mkS _ _ _ ?J) => set (jobs' := J) end.
+    assert (PH : forall j, j_ph (jobs' j) = j_ph (s_jobs s j) \/ (j_ph (s_jobs s j) = Holding /\ j_ph (jobs' j) = Ended)).
+    { intros j. unfold jobs'. destruct (s_jobs s j) as [ph ok orph lk pd]. simpl. destruct (_ && _); auto. destruct ph; simpl; auto. }
     named.
     + destruct (a_lock1 _ _ I _ HL). split; auto. destruct (PH j0) as [E|[E1 E2]]; simpl in *; congruence.
     + apply (a_lock2 _ _ I). destruct (PH j0) as [E|[E1 E2]]; simpl in *; congruence.
@@ -291,6 +344,13 @@ Proof.
     + rewrite upd_same. reflexivity.
     + apply good_all; auto.
   - (* JobEnds *)
+    destruct (j_ph (s_jobs s j)) eqn:P; try discriminate.
+    inversion H; subst; clear H.
+    apply (invA_phase C s _ j Ended); auto; simpl.
+    + intros k Hk. rewrite upd_other; auto.
+    + rewrite upd_same. reflexivity.
+    + apply good_all; auto.
+  - (* JobKilled *)
     destruct (j_ph (s_jobs s j)) eqn:P; try discriminate.
     inversion H; subst; clear H.
     apply (invA_phase C s _ j Ended); auto; simpl.
@@ -369,8 +429,7 @@ Proof.
       * apply (invA_same C s); auto; simpl. apply good_upd; auto.
   - (* Fire *)
     open_guard H. split_and G.
-    assert (PJ : j_ph (s_jobs s n) = Idle \/ j_ph (s_jobs s n) = Done \/ j_ph (s_jobs s n) = Ended).
-    { destruct (j_ph (s_jobs s n)); try discriminate; auto. }
+    assert (PJ := can_finish_phase s n IL G0).
     assert (GA := good_all C s I).
     assert (GP : forall q, cache_good C (upd (s_procs s) p (mkProc (p_alive (s_procs s p)) (p_avail (s_procs s p)) (p_cache (s_procs s p))
                    (p_obs (s_procs s p)) (p_evq (s_procs s p)) (remove_first n (p_wat (s_procs s p)))) q)).
@@ -382,6 +441,88 @@ Proof.
       * destruct PJ as [E|[E|E]]; congruence.
       * apply good_emit; auto.
     + apply (invA_same C s); auto.
+  - discriminate.
+Qed.
+
+Lemma good_emit_except C p ev (procs : nat -> proc) :
+  (forall q, cache_good C (procs q)) -> forall q, cache_good C (emit_except p ev procs q).
+Proof. intros H q. unfold emit_except. destruct (Nat.eqb q p); auto. apply good_emit; auto. Qed.
+
+Lemma invA_silent C s p n s' r : InvL s -> InvA C s -> silent_fire C s p n = Some (s', r) -> InvA C s'.
+Proof.
+  intros IL I H. unfold silent_fire in H. open_guard H. split_and G.
+  assert (PJ := can_finish_phase s n IL G0).
+  assert (GA := good_all C s I).
+  assert (GP : forall q, cache_good C (upd (s_procs s) p (mkProc (p_alive (s_procs s p)) (p_avail (s_procs s p)) (p_cache (s_procs s p))
+                 (p_obs (s_procs s p)) (p_evq (s_procs s p)) (remove_first n (p_wat (s_procs s p)))) q)).
+  { apply good_upd; auto. intros k c Hc. apply (GA p k c Hc). }
+  destruct (is_present (s_disk s n)) eqn:PR; inversion H; subst; clear H.
+  - apply (invA_delete C s _ n); auto; simpl.
+    + intros k Hk. apply upd_other; auto.
+    + apply upd_same.
+    + destruct PJ as [E|[E|E]]; congruence.
+    + apply good_emit_except; auto.
+  - apply (invA_same C s); auto.
+Qed.
+
+Lemma silent_jobs C s p n s' r : silent_fire C s p n = Some (s', r) -> s_jobs s' = s_jobs s.
+Proof.
+  intros H. unfold silent_fire in H. open_guard H.
+  destruct (is_present (s_disk s n)); inversion H; subst; reflexivity.
+Qed.
+
+Lemma invL_step1 V C s l s' r : InvA C s -> InvL s -> step1 V C s l = Some (s', r) -> InvL s'.
+Proof.
+  intros I L H. apply (invL_jobs s s' L). intros j0. destruct l; simpl in H.
+  - open_guard H. inversion H; subst; clear H. simpl.
+    match goal with |- context[if ?b then _ else _] => destruct b end; [right; left; simpl; auto|left; reflexivity].
+  - open_guard H. inversion H; subst; clear H. simpl.
+    destruct (s_jobs s j0) as [ph ok orph lk pd] eqn:E. simpl.
+    match goal with |- context[if ?b then _ else _] => destruct b end; auto.
+    destruct ph; simpl;
+      [left; reflexivity | left; reflexivity | do 5 right; auto | right; left; auto | right; left; auto | left; reflexivity].
+  - open_guard H. destruct (_ <? _); inversion H; subst; clear H; simpl.
+    + unfold upd. destruct (Nat.eqb_spec j0 j); subst; auto; right; left; simpl; auto.
+    + unfold upd. destruct (Nat.eqb_spec j0 j); subst; auto; right; right; left; simpl; auto.
+  - destruct (s_lock s) eqn:LK; try discriminate. destruct (Nat.eqb_spec j n); try discriminate. subst.
+    inversion H; subst; clear H. simpl. unfold upd. destruct (Nat.eqb_spec j0 n); subst; auto.
+    destruct (a_lock1 _ _ I n LK) as [P _]. do 3 right. left. simpl. auto.
+  - destruct (j_ph (s_jobs s j)) eqn:P; try discriminate. destruct (j_orph (s_jobs s j)); try discriminate.
+    inversion H; subst; clear H. simpl. unfold upd. destruct (Nat.eqb_spec j0 j); subst; auto.
+    do 4 right. left. simpl. auto.
+  - destruct (j_ph (s_jobs s j)) eqn:P; try discriminate.
+    inversion H; subst; clear H. simpl. unfold upd. destruct (Nat.eqb_spec j0 j); subst; auto.
+    do 5 right. simpl. split; auto.
+    destruct (j_lock (s_jobs s j)) eqn:LK; auto. apply (l_unlocked _ L) in LK. destruct LK; congruence.
+  - destruct (j_ph (s_jobs s j)) eqn:P; try discriminate.
+    inversion H; subst; clear H. simpl. unfold upd. destruct (Nat.eqb_spec j0 j); subst; auto.
+    do 5 right. simpl. split; auto.
+    destruct (j_lock (s_jobs s j)) eqn:LK; auto. apply (l_unlocked _ L) in LK. destruct LK; congruence.
+  - destruct (match j_ph (s_jobs s j) with Holding => Some Idle | Ended => Some Done | _ => None end) as [ph'|] eqn:NP; try discriminate.
+    assert (PJ' : ph' = Idle \/ ph' = Done) by (destruct (j_ph (s_jobs s j)); inversion NP; auto).
+    open_guard H.
+    assert (JJ : forall a (jobs1 : nat -> jst), jobs1 = upd (s_jobs s) j (set_job (s_jobs s j) ph' false (j_pid (s_jobs s j))) ->
+       notify C p a jobs1 j0 = s_jobs s j0 \/
+       (j_ph (notify C p a jobs1 j0) = j_ph (s_jobs s j0) /\ j_lock (notify C p a jobs1 j0) = j_lock (s_jobs s j0) /\ j_pid (notify C p a jobs1 j0) = j_pid (s_jobs s j0)) \/
+       ((j_ph (notify C p a jobs1 j0) = Ended \/ j_ph (notify C p a jobs1 j0) = Idle \/ j_ph (notify C p a jobs1 j0) = Done) /\ j_lock (notify C p a jobs1 j0) = false)).
+    { intros a jobs1 ->. rewrite notify_ph, notify_lock, notify_pid. unfold upd. destruct (Nat.eqb_spec j0 j); subst; simpl; auto;
+      right; right; split; auto; destruct PJ' as [->| ->]; auto. }
+    destruct (p_cache _ j).
+    + destruct (is_present (s_disk s j)); inversion H; subst; clear H; simpl;
+        (destruct (JJ (p_avail (recount C s (s_procs s p)) + z) _ eq_refl) as [E|[E|E]]; [left; exact E|right; left; exact E|do 5 right; exact E]).
+    + inversion H; subst; clear H; simpl. destruct (v_notify V).
+      * destruct (JJ (p_avail (recount C s (s_procs s p))) _ eq_refl) as [E|[E|E]]; [left; exact E|right; left; exact E|do 5 right; exact E].
+      * unfold upd. destruct (Nat.eqb_spec j0 j); subst; simpl; auto;
+        do 5 right; split; auto; destruct PJ' as [->| ->]; auto.
+  - open_guard H. destruct (nth_error _ i) as [ev|]; try discriminate.
+    assert (D : s_jobs s' j0 = s_jobs s j0 \/ (j_ph (s_jobs s' j0) = j_ph (s_jobs s j0) /\ j_lock (s_jobs s' j0) = j_lock (s_jobs s j0) /\ j_pid (s_jobs s' j0) = j_pid (s_jobs s j0))).
+    { destruct ev; repeat match type of H with
+        | match ?x with _ => _ end = _ => destruct x
+        | (if ?x then _ else _) = _ => destruct x end; inversion H; subst; simpl; auto.
+      right. rewrite notify_ph, notify_lock, notify_pid. auto. }
+    destruct D as [D|D]; auto.
+  - open_guard H. destruct (is_present (s_disk s n)); inversion H; subst; auto.
+  - discriminate.
 Qed.
 
 (* ====== part B: capacity *)
@@ -429,8 +570,8 @@ Proof.
     destruct H; rewrite H in A; repeat (destruct A as [A|A]; try discriminate).
 Qed.
 
-Lemma cap_step V C s l s' r :
-  cnt_nonneg C -> InvA C s -> held_sum C s <= c_total C -> step V C s l = Some (s', r) -> held_sum C s' <= c_total C.
+Lemma cap_step1 V C s l s' r :
+  cnt_nonneg C -> InvA C s -> held_sum C s <= c_total C -> step1 V C s l = Some (s', r) -> held_sum C s' <= c_total C.
 Proof.
   intros NN I Hc H. destruct l; simpl in H.
   - open_guard H. inversion H; subst. rewrite (held_sum_same C s); auto.
@@ -449,6 +590,8 @@ Proof.
     + unfold held; simpl. rewrite upd_same. rewrite (a_empty2 _ _ I n Hp). lia.
     + intros k Hk. apply upd_other; auto.
   - destruct (j_ph (s_jobs s j)); try discriminate. destruct (j_orph (s_jobs s j)); try discriminate.
+    inversion H; subst. rewrite (held_sum_same C s); auto.
+  - destruct (j_ph (s_jobs s j)); try discriminate.
     inversion H; subst. rewrite (held_sum_same C s); auto.
   - destruct (j_ph (s_jobs s j)); try discriminate.
     inversion H; subst. rewrite (held_sum_same C s); auto.
@@ -479,6 +622,90 @@ Proof.
       * unfold held; simpl. rewrite upd_same. specialize (NN n). destruct (s_disk s n); lia.
       * intros k Hk. apply upd_other; auto.
     + rewrite (held_sum_same C s); auto.
+  - discriminate.
+Qed.
+
+Lemma cap_silent C s p n s' r :
+  cnt_nonneg C -> InvA C s -> held_sum C s <= c_total C -> silent_fire C s p n = Some (s', r) -> held_sum C s' <= c_total C.
+Proof.
+  intros NN I Hc H. unfold silent_fire in H.
+  open_guard H. destruct (is_present (s_disk s n)) eqn:PR; inversion H; subst; clear H.
+  - assert (s_disk s n <> Absent) by (destruct (s_disk s n); simpl in PR; congruence).
+    apply (a_disk _ _ I) in H. destruct H as [Hn _].
+    rewrite (held_sum_set C s _ n); simpl; auto.
+    + unfold held; simpl. rewrite upd_same. specialize (NN n). destruct (s_disk s n); lia.
+    + intros k Hk. apply upd_other; auto.
+  - rewrite (held_sum_same C s); auto.
+Qed.
+
+(* ---- the same for `step` *)
+Lemma step_cases V C s l s' r :
+  step V C s l = Some (s', r) ->
+  step1 V C s l = Some (s', r) \/
+  exists p n s1, l = StartRace p n /\
+     ((v_watch V = true /\ ghost_delete C s n = Some s1 /\ step1 V C s1 (Start p) = Some (s', r)) \/
+      (v_watch V = false /\ (exists r1, step1 V C s (Start p) = Some (s1, r1)) /\ silent_fire C s1 p n = Some (s', r))).
+Proof.
+  intros H. destruct l; try (left; exact H). right. unfold step in H.
+  destruct (v_watch V) eqn:W.
+  - destruct (ghost_delete C s n) as [s1|] eqn:E; try discriminate. exists p, n, s1. split; auto.
+  - destruct (step1 V C s (Start p)) as [[s1 r1]|] eqn:E; try discriminate.
+    exists p, n, s1. split; auto. right. split; auto. split; eauto.
+Qed.
+
+Lemma ghost_jobs C s n s1 : ghost_delete C s n = Some s1 -> s_jobs s1 = s_jobs s /\ s_lock s1 = s_lock s.
+Proof. unfold ghost_delete. destruct (_ && _); intros H; inversion H; subst; auto. Qed.
+
+Lemma invA_ghost C s n s1 : InvL s -> InvA C s -> ghost_delete C s n = Some s1 -> InvA C s1.
+Proof.
+  intros IL I H. unfold ghost_delete in H. destruct (_ && _) eqn:G; try discriminate. apply andb_true_iff in G. destruct G as [G0 G1].
+  inversion H; subst; clear H. assert (PJ := can_finish_phase s n IL G0).
+  apply (invA_delete C s _ n); auto; simpl.
+  - intros k Hk. apply upd_other; auto.
+  - apply upd_same.
+  - destruct PJ as [E|[E|E]]; congruence.
+  - apply good_emit. apply good_all; auto.
+Qed.
+
+Lemma invL_same_jobs s s' : InvL s -> s_jobs s' = s_jobs s -> InvL s'.
+Proof. intros L E. constructor; intros j; rewrite E; [apply (l_locked _ L)|apply (l_unlocked _ L)|apply (l_pid _ L)]. Qed.
+
+Lemma cap_ghost C s n s1 :
+  cnt_nonneg C -> InvA C s -> held_sum C s <= c_total C -> ghost_delete C s n = Some s1 -> held_sum C s1 <= c_total C.
+Proof.
+  intros NN I Hc H. unfold ghost_delete in H. destruct (_ && _) eqn:G; try discriminate. apply andb_true_iff in G. destruct G as [G0 G1].
+  inversion H; subst; clear H.
+  assert (s_disk s n <> Absent) by (destruct (s_disk s n); simpl in G1; congruence).
+  apply (a_disk _ _ I) in H. destruct H as [Hn _].
+  rewrite (held_sum_set C s _ n); simpl; auto.
+  - unfold held; simpl. rewrite upd_same. specialize (NN n). destruct (s_disk s n); lia.
+  - intros k Hk. apply upd_other; auto.
+Qed.
+
+Lemma invAL_step V C s l s' r : InvA C s /\ InvL s -> step V C s l = Some (s', r) -> InvA C s' /\ InvL s'.
+Proof.
+  intros [I L] H. apply step_cases in H. destruct H as [H|[p [n [s1 [_ [[_ [H1 H2]]|[_ [[r1 H1] H2]]]]]]]].
+  - split; [apply (invA_step1 V C s l s' r L I H)|apply (invL_step1 V C s l s' r I L H)].
+  - assert (I1 : InvA C s1) by (apply (invA_ghost C s n s1 L I H1)).
+    assert (L1 : InvL s1) by (apply (invL_same_jobs s s1 L); apply (ghost_jobs C s n s1 H1)).
+    split; [apply (invA_step1 V C s1 _ s' r L1 I1 H2)|apply (invL_step1 V C s1 _ s' r I1 L1 H2)].
+  - assert (I1 : InvA C s1) by (apply (invA_step1 V C s _ s1 r1 L I H1)).
+    assert (L1 : InvL s1) by (apply (invL_step1 V C s _ s1 r1 I L H1)).
+    split; [eapply invA_silent; eauto|].
+    apply (invL_same_jobs s1 s' L1). apply (silent_jobs C s1 p n s' r H2).
+Qed.
+
+Lemma cap_step V C s l s' r :
+  cnt_nonneg C -> InvA C s -> InvL s -> held_sum C s <= c_total C -> step V C s l = Some (s', r) -> held_sum C s' <= c_total C.
+Proof.
+  intros NN I L Hc H. apply step_cases in H. destruct H as [H|[p [n [s1 [_ [[_ [H1 H2]]|[_ [[r1 H1] H2]]]]]]]].
+  - eapply cap_step1; eauto.
+  - assert (I1 : InvA C s1) by (apply (invA_ghost C s n s1 L I H1)).
+    assert (C1 : held_sum C s1 <= c_total C) by (apply (cap_ghost C s n s1 NN I Hc H1)).
+    apply (cap_step1 V C s1 _ s' r NN I1 C1 H2).
+  - assert (I1 : InvA C s1) by (apply (invA_step1 V C s _ s1 r1 L I H1)).
+    assert (C1 : held_sum C s1 <= c_total C) by (apply (cap_step1 V C s _ s1 r1 NN I Hc H1)).
+    apply (cap_silent C s1 p n s' r NN I1 C1 H2).
 Qed.
 
 (* ====== part C: the C09 invariant (repaired code): definitions and helpers *)
@@ -688,7 +915,7 @@ Proof.
     + cq q p.
       * destruct (R1 k HC) as [c D]. left. congruence.
       * apply (b_known _ _ B); auto.
-    + assert (JO : j_orph (upd (s_jobs s) j (mkJ (j_ph (s_jobs s j)) (c_cnt C j <=? p_avail pr) (j_orph (s_jobs s j))) k) = j_orph (s_jobs s k)).
+    + assert (JO : j_orph (upd (s_jobs s) j (set_ok (s_jobs s j) (c_cnt C j <=? p_avail pr)) k) = j_orph (s_jobs s k)).
       { unfold upd. destruct (Nat.eqb_spec k j); subst; reflexivity. }
       rewrite JO. cq q p.
       * apply WP; auto.
@@ -705,7 +932,7 @@ Proof.
   - (* token taken, file opened *)
     assert (CJ : p_cache pr j = None).
     { destruct (p_cache pr j) eqn:E; auto. destruct (R1 j) as [c D]; congruence. }
-    assert (JO : forall k, j_orph (upd (s_jobs s) j (set_ph (s_jobs s j) Creating) k) = j_orph (s_jobs s k)).
+    assert (JO : forall k, j_orph (upd (s_jobs s) j (set_job (s_jobs s j) Creating true (j_pid (s_jobs s j))) k) = j_orph (s_jobs s k)).
     { intros k. unfold upd. destruct (Nat.eqb_spec k j); subst; reflexivity. }
     namedB.
     + rewrite emit_alive in HA. rewrite emit_avail. unfold cache_sum. rewrite emit_cache. fold (cache_sum C (upd (s_procs s) p
@@ -767,11 +994,11 @@ Proof.
 Qed.
 
 (* a job changes phase to something that is not Idle; nothing else changes *)
-Lemma invB_phase C s j ph :
-  InvB C s -> ph <> Idle -> InvB C (mkS (s_lock s) (s_disk s) (s_procs s) (upd (s_jobs s) j (set_ph (s_jobs s j) ph))).
+Lemma invB_phase C s j ph lk pd :
+  InvB C s -> ph <> Idle -> InvB C (mkS (s_lock s) (s_disk s) (s_procs s) (upd (s_jobs s) j (set_job (s_jobs s j) ph lk pd))).
 Proof.
   intros B NI.
-  assert (JO : forall k, j_orph (upd (s_jobs s) j (set_ph (s_jobs s j) ph) k) = j_orph (s_jobs s k)).
+  assert (JO : forall k, j_orph (upd (s_jobs s) j (set_job (s_jobs s j) ph lk pd) k) = j_orph (s_jobs s k)).
   { intros k. unfold upd. destruct (Nat.eqb_spec k j); subst; reflexivity. }
   namedB.
   - apply (b_avail _ _ B); auto.
@@ -852,7 +1079,7 @@ Proof.
   { intros k HC HD. rewrite RW, RE. destruct (R3 k HC) as [E|E].
     - destruct (b_watch _ _ B p k G E HD) as [W|[W|W]]; auto. left. apply in_app_l; auto.
     - left. apply in_or_app; auto. }
-  set (jobs1 := upd (s_jobs s) j (set_ph (s_jobs s j) ph')) in *.
+  set (jobs1 := upd (s_jobs s) j (set_job (s_jobs s j) ph' false (j_pid (s_jobs s j)))) in *.
   assert (J1O : forall k, j_orph (jobs1 k) = j_orph (s_jobs s k)).
   { intros k. unfold jobs1, upd. destruct (Nat.eqb_spec k j); subst; reflexivity. }
   assert (J1K : forall k, j_ok (jobs1 k) = j_ok (s_jobs s k)).
@@ -1038,37 +1265,75 @@ Proof.
     + inversion H; subst; clear H. apply SAME. intros k Hk. inversion Hk; subst. auto.
 Qed.
 
-Lemma invB_step C s l s' r : cnt_pos C -> InvA C s -> InvB C s -> step VF C s l = Some (s', r) -> InvB C s'.
+Lemma invB_ghost C s n s1 : cnt_pos C -> InvA C s -> InvB C s -> ghost_delete C s n = Some s1 -> InvB C s1.
 Proof.
-  intros NP I B H. destruct l.
+  intros NP I B H. unfold ghost_delete in H. destruct (_ && _) eqn:G; try discriminate.
+  inversion H; subst; clear H.
+  namedB.
+  - rewrite emit_alive in HA. rewrite emit_avail. unfold cache_sum. rewrite emit_cache. apply (b_avail _ _ B); auto.
+  - rewrite emit_alive in HA. rewrite emit_obs. apply (b_obs _ _ B); auto.
+  - rewrite emit_alive in HA. rewrite emit_cache in HC.
+    destruct (Nat.eq_dec k n) as [->|NK].
+    + right. apply emit_evq_new; auto. apply (b_obs _ _ B); auto.
+    + rewrite upd_other by auto. destruct (b_known _ _ B q k HA HC) as [K|K]; auto.
+      right. apply emit_evq_In. auto.
+  - rewrite emit_alive in HA. rewrite emit_cache in HC. rewrite emit_wat.
+    destruct (Nat.eq_dec k n) as [->|NK]; [rewrite upd_same in HD; congruence|]. rewrite upd_other in HD by auto.
+    destruct (b_watch _ _ B q k HA HC HD) as [W|[W|W]]; auto.
+    right. right. apply emit_evq_In. auto.
+  - rewrite emit_alive in HA. rewrite emit_avail, emit_cache. apply (b_wait _ _ B); auto.
+  - apply (b_ok _ _ B); auto.
+Qed.
+
+Lemma invB_killed C s j s' r : InvB C s -> step VF C s (JobKilled j) = Some (s', r) -> InvB C s'.
+Proof.
+  intros B H. simpl in H. destruct (j_ph (s_jobs s j)); try discriminate.
+  inversion H; subst. apply invB_phase; auto. discriminate.
+Qed.
+
+Lemma invB_step C s l s' r : cnt_pos C -> InvA C s -> InvL s -> InvB C s -> step VF C s l = Some (s', r) -> InvB C s'.
+Proof.
+  intros NP I L B H. destruct l.
   - eapply invB_start; eauto.
   - eapply invB_kill; eauto.
   - eapply invB_acquire; eauto.
   - eapply invB_write; eauto.
   - eapply invB_launch; eauto.
   - eapply invB_ends; eauto.
+  - eapply invB_killed; eauto.
   - eapply invB_release; eauto.
   - eapply invB_deliver; eauto.
   - eapply invB_fire; eauto.
+  - (* the repaired __init__: the file disappears, then Start *)
+    unfold step in H. simpl v_watch in H. cbv iota in H.
+    destruct (ghost_delete C s n) as [s1|] eqn:E; try discriminate.
+    assert (I1 : InvA C s1) by (apply (invA_ghost C s n s1 L I E)).
+    assert (B1 : InvB C s1) by (apply (invB_ghost C s n s1 NP I B E)).
+    apply (invB_start C s1 p s' r NP I1 B1 H).
 Qed.
 
 (* ====== part E: theorems *)
 Opaque recount notify emit parsable.
 
 (* ------------------------------------------------------------------ reachable states *)
+Lemma reach_invAL V C s : reachable V C s -> InvA C s /\ InvL s.
+Proof. induction 1; [split; [apply invA_init|apply invL_init]|eapply invAL_step; eauto]. Qed.
 Lemma reach_invA V C s : reachable V C s -> InvA C s.
-Proof. induction 1; [apply invA_init|eapply invA_step; eauto]. Qed.
+Proof. intros R. apply (reach_invAL V C s R). Qed.
+Lemma reach_invL V C s : reachable V C s -> InvL s.
+Proof. intros R. apply (reach_invAL V C s R). Qed.
 
 Lemma reach_cap V C s : cnt_nonneg C -> 0 <= c_total C -> reachable V C s -> held_sum C s <= c_total C.
 Proof.
   intros NN T R. induction R.
   - unfold held_sum. rewrite sumf_zero; auto.
-  - eapply cap_step; eauto. eapply reach_invA; eauto.
+  - eapply cap_step; eauto; [eapply reach_invA; eauto|eapply reach_invL; eauto].
 Qed.
 
 Lemma reach_invB C s : cnt_pos C -> reachable VF C s -> InvB C s.
 Proof.
-  intros NP R. induction R; [apply invB_init|]. eapply invB_step; eauto. eapply reach_invA; eauto.
+  intros NP R. induction R; [apply invB_init|].
+  apply (invB_step C s l s' r NP (reach_invA VF C s R) (reach_invL VF C s R) IHR H).
 Qed.
 
 Lemma written_le_held C s : cnt_nonneg C -> InvA C s -> written_sum C s <= held_sum C s.
@@ -1108,12 +1373,29 @@ Proof.
 Qed.
 
 (* a watcher thread only deletes the file of a job that is not between acquire and exit *)
+(* TokenFile.watch deletes only when the job lock is free and there is no pid file or the
+   process it names is gone; in a reachable state this means the job is not between acquire
+   and exit: the scheduler holds the job lock from before the token is taken until the pid
+   file exists                                                                           *)
 Theorem watcher_not_early : forall V C s p n s' r,
-  step V C s (Fire p n) = Some (s', r) ->
-  j_ph (s_jobs s n) = Idle \/ j_ph (s_jobs s n) = Ended \/ j_ph (s_jobs s n) = Done.
+  reachable V C s -> step V C s (Fire p n) = Some (s', r) ->
+  j_lock (s_jobs s n) = false /\ (j_pid (s_jobs s n) = false \/ j_ph (s_jobs s n) <> Running) /\
+  (j_ph (s_jobs s n) = Idle \/ j_ph (s_jobs s n) = Ended \/ j_ph (s_jobs s n) = Done).
 Proof.
-  intros V C s p n s' r H. simpl in H. open_guard H. split_and G.
-  destruct (j_ph (s_jobs s n)); try discriminate; auto.
+  intros V C s p n s' r R H. simpl in H. open_guard H. split_and G.
+  assert (PJ := can_finish_phase s n (reach_invL V C s R) G0).
+  unfold watcher_can_finish in G0. apply andb_true_iff in G0. destruct G0 as [K1 K2].
+  split; [destruct (j_lock (s_jobs s n)); simpl in K1; congruence|]. split.
+  - destruct (j_pid (s_jobs s n)); auto. right. simpl in K2. destruct (j_ph (s_jobs s n)); simpl in K2; congruence.
+  - destruct PJ as [E|[E|E]]; auto.
+Qed.
+
+Theorem start_window_locked : forall V C s j,
+  reachable V C s ->
+  (j_ph (s_jobs s j) = Creating \/ j_ph (s_jobs s j) = Holding -> j_lock (s_jobs s j) = true) /\
+  (j_ph (s_jobs s j) = Running -> j_pid (s_jobs s j) = true).
+Proof.
+  intros V C s j R. assert (L := reach_invL V C s R). split; [apply (l_locked _ L)|apply (l_pid _ L)].
 Qed.
 
 (* ---- ProcessCounterToken *)
@@ -1284,12 +1566,19 @@ Proof.
   destruct (b_watch _ _ B q k A HC D) as [W|[[W _]|W]]; auto. congruence.
 Qed.
 
-(* ... that thread can run as soon as the job has ended, and then the file is gone *)
+(* ... that thread can run as soon as the job has ended - orderly (pid file removed) or
+   killed (stale pid file left behind) - and then the file is gone *)
 Theorem crash_reclaim_fires : forall V C s q k,
+  reachable V C s ->
   p_alive (s_procs s q) = true -> In k (p_wat (s_procs s q)) -> j_ph (s_jobs s k) = Ended ->
   exists s', step V C s (Fire q k) = Some (s', ROk) /\ s_disk s' k = Absent.
 Proof.
-  intros V C s q k A W P. simpl. rewrite A, P. apply mem_In in W. rewrite W. simpl.
+  intros V C s q k R A W P. assert (L := reach_invL V C s R). simpl. rewrite A. apply mem_In in W. rewrite W. simpl.
+  assert (WF : watcher_can_finish (s_jobs s k) = true).
+  { unfold watcher_can_finish. rewrite P. simpl.
+    destruct (j_lock (s_jobs s k)) eqn:LK; [|simpl; destruct (j_pid (s_jobs s k)); reflexivity].
+    apply (l_unlocked _ L) in LK. destruct LK; congruence. }
+  rewrite WF.
   destruct (is_present (s_disk s k)) eqn:PR; eexists; split; eauto; simpl.
   - apply upd_same.
   - destruct (s_disk s k); simpl in PR; congruence.
@@ -1369,9 +1658,23 @@ Proof.
 Qed.
 (* the other two repairs alone do not remove it *)
 Theorem release_unnotified_refuted_alone : exists C tr s p j,
-  run (mkV true true false) C init tr = Some s /\ quiescent s /\ waiting_fits C s p j /\ p_obs (s_procs s p) = true.
+  run (mkV true true false true) C init tr = Some s /\ quiescent s /\ waiting_fits C s p j /\ p_obs (s_procs s p) = true.
 Proof.
-  exists C2, tr2, (final (mkV true true false) C2 tr2), 0%nat, 1%nat.
+  exists C2, tr2, (final (mkV true true false true) C2 tr2), 0%nat, 1%nat.
+  split; [apply final_run; vm_compute; reflexivity|].
+  split; [quiescent_2|].
+  split; [|vm_compute; reflexivity].
+  unfold waiting_fits. repeat split; try (vm_compute; reflexivity); simpl; lia.
+Qed.
+
+(* 4. the job of a dead scheduler ends; the next scheduler's __init__ counts its token file,
+      the watcher thread started by that _update deletes the file before the directory watch
+      exists: no event ever tells, job 1 is WAITING for ever (the other repairs applied)    *)
+Definition tr6 := [Start 0; Acquire 0 0; WriteF 0; Launch 0; Kill 0; JobEnds 0 0; StartRace 1 0]%nat.
+Theorem restart_race_refuted : exists C tr s p j,
+  run (mkV true true true false) C init tr = Some s /\ quiescent s /\ waiting_fits C s p j /\ p_obs (s_procs s p) = true.
+Proof.
+  exists C1, tr6, (final (mkV true true true false) C1 tr6), 1%nat, 1%nat.
   split; [apply final_run; vm_compute; reflexivity|].
   split; [quiescent_2|].
   split; [|vm_compute; reflexivity].
@@ -1441,6 +1744,26 @@ Example ex_crash :
 Proof.
   split; [apply final_reachable; vm_compute; reflexivity|].
   repeat split; vm_compute; try reflexivity; try discriminate. left. reflexivity.
+Qed.
+
+(* crash_reclaim_fires with a stale pid file: scheduler 0 is killed, then its job is killed *)
+Definition tr7 := [Start 0; Start 1; Acquire 0 0; WriteF 0; Deliver 1 0; Launch 0; Kill 0; JobKilled 0]%nat.
+Example ex_crash_stale_pid :
+  reachable VF C1 (final VF C1 tr7) /\ p_alive (s_procs (final VF C1 tr7) 1) = true /\
+  In 0%nat (p_wat (s_procs (final VF C1 tr7) 1)) /\ j_ph (s_jobs (final VF C1 tr7) 0) = Ended /\
+  j_pid (s_jobs (final VF C1 tr7) 0) = true /\ s_disk (final VF C1 tr7) 0 <> Absent.
+Proof.
+  split; [apply final_reachable; vm_compute; reflexivity|].
+  repeat split; vm_compute; try reflexivity; try discriminate. left. reflexivity.
+Qed.
+
+(* the repaired start-up: the same race leaves job 1 ready *)
+Example ex_restart_race_repaired :
+  reachable VF C1 (final VF C1 tr6) /\ quiescent (final VF C1 tr6) /\ j_ok (s_jobs (final VF C1 tr6) 1) = true /\
+  p_avail (s_procs (final VF C1 tr6) 1) = 1.
+Proof.
+  split; [apply final_reachable; vm_compute; reflexivity|].
+  split; [quiescent_2|]. split; vm_compute; reflexivity.
 Qed.
 
 (* capacity_inproc *)
